@@ -2,6 +2,8 @@ import Lean.Data.Json
 import GristModel
 import Driver.Treeview
 import Driver.Engine
+import Driver.Relabel
+import Driver.Textbuilder
 import Driver.JsonImport
 import Driver.Predicate
 import Driver.SortedFind
@@ -19,6 +21,9 @@ def handleStateless (m : String) (j : Json) : Except String Json :=
   | "schedule" => handleSchedule j
   | "sortedfind" => handleSortedFind j
   | "predicate" => Grist.Driver.Pred.handlePredicate j
+  | "jsonimport" => Grist.Driver.JsonImport.handleJsonImport j
+  | "textbuilder" => handleTextbuilder j
+  | "relabel" => Relabel.handleRelabel j
   | _ => throw s!"unknown model {m}"
 
 structure AllState where
